@@ -1,0 +1,38 @@
+//go:build verif
+
+package stack
+
+// Contracts for the verifier in /verif (comment-only; compiled only with -tags verif).
+
+//@ func New() (result *Stack)
+//@   ensures new.fresh: result != nil && fresh(result) && len(result.entries) == 0
+//@   panics never
+//@
+//@ func (s *Stack) Clear()
+//@   modifies s.entries
+//@   ensures clear.empty: len(s.entries) == 0 && fresh(s.entries)
+//@   panics never
+//@
+//@ func (s *Stack) Empty() (result bool)
+//@   modifies nothing
+//@   ensures empty.def: result == (len(s.entries) == 0)
+//@   panics never
+//@
+//@ func (s *Stack) Size() (result int)
+//@   modifies nothing
+//@   ensures size.def: result == len(s.entries)
+//@   panics never
+//@
+//@ func (s *Stack) Push(value object.Object)
+//@   modifies s.entries, s.entries[*]
+//@   ensures push.len: len(s.entries) == old(len(s.entries)) + 1
+//@   ensures push.keep: forall i in 0..old(len(s.entries)) :: s.entries[i] === old(s.entries[i])
+//@   ensures push.top: s.entries[old(len(s.entries))] === value
+//@   panics never
+//@
+//@ func (s *Stack) Pop() (result object.Object, err error)
+//@   modifies s.entries
+//@   ensures pop.empty: old(len(s.entries)) == 0 ==> err != nil && result == nil && s.entries === old(s.entries)
+//@   ensures pop.nonempty: old(len(s.entries)) > 0 ==> err == nil && result === old(s.entries[len(s.entries)-1])
+//@                         && s.entries === old(s.entries)[:old(len(s.entries))-1]
+//@   panics never
